@@ -26,6 +26,9 @@ type c06Op struct {
 	Args  []string `json:"args"`
 	Names []string `json:"names,omitempty"` // intended display names of the valid args (parallel to Addrs)
 	Addrs []string `json:"addrs,omitempty"` // intended addr-specs of the valid args, in order ("" for invalid)
+	// Shared > 0: the call is given the very slice that op number Shared-1 was given (Args is a copy of that op's
+	// original arguments, which is what the caller put into the slice)
+	Shared int `json:"same_slice_as_op_plus_1,omitempty"`
 }
 
 type c06Case struct {
@@ -191,6 +194,34 @@ func genC06(r *mrand.Rand, idx int) c06Case {
 		}
 		c.Ops = append(c.Ops, op)
 	}
+	// the caller keeps one list in a slice variable and hands it to several setters (the same people in To and Cc, a
+	// list tried with the IgnoreInvalid variant first): such an op gets the very slice an earlier call was given
+	isListOp := func(o string) bool {
+		switch o {
+		case "To", "Cc", "Bcc", "ToIgnoreInvalid", "CcIgnoreInvalid", "BccIgnoreInvalid":
+			return true
+		}
+		return false
+	}
+	for i := 1; i < len(c.Ops); i++ {
+		if !isListOp(c.Ops[i].Op) || r.Intn(3) != 0 {
+			continue
+		}
+		var cands []int
+		for j := 0; j < i; j++ {
+			if isListOp(c.Ops[j].Op) && c.Ops[j].Shared == 0 && len(c.Ops[j].Args) >= 2 {
+				cands = append(cands, j)
+			}
+		}
+		if len(cands) == 0 {
+			continue
+		}
+		j := gen.Pick(r, cands)
+		c.Ops[i].Args = append([]string(nil), c.Ops[j].Args...)
+		c.Ops[i].Names = append([]string(nil), c.Ops[j].Names...)
+		c.Ops[i].Addrs = append([]string(nil), c.Ops[j].Addrs...)
+		c.Ops[i].Shared = j + 1
+	}
 	return c
 }
 
@@ -242,8 +273,7 @@ func (m *c06Model) apply(op c06Op) (expectErr bool) {
 	return false
 }
 
-func applyReal(m *mail.Msg, op c06Op) error {
-	a := op.Args
+func applyReal(m *mail.Msg, op c06Op, a []string) error {
 	one := func() string {
 		if len(a) > 0 {
 			return a[0]
@@ -309,7 +339,14 @@ func runC06Case(r *ev.Run, c c06Case) {
 	m.Subject("c06")
 	m.SetBodyString(mail.TypeTextPlain, "body text\r\n")
 	model := &c06Model{lists: map[string][]maddr{}}
+	live := make([][]string, len(c.Ops)) // the slice each call was given (the caller's own variable)
 	for i, op := range c.Ops {
+		args := append([]string(nil), op.Args...)
+		if op.Shared > 0 && op.Shared <= i {
+			args = live[op.Shared-1]
+			r.Count("calls_given_the_slice_of_an_earlier_call", 1)
+		}
+		live[i] = args
 		wantErr := model.apply(op)
 		var err error
 		func() {
@@ -319,7 +356,7 @@ func runC06Case(r *ev.Run, c c06Case) {
 					viol("panic:"+op.Op, fmt.Sprintf("op %d %s panicked: %v", i, op.Op, p), nil)
 				}
 			}()
-			err = applyReal(m, op)
+			err = applyReal(m, op, args)
 		}()
 		r.Count("setter_calls", 1)
 		if (err != nil) != wantErr {
@@ -510,7 +547,7 @@ func runC06Case(r *ev.Run, c c06Case) {
 
 func runC06(r *ev.Run, rep *ev.ReplayDoc) ev.Summary {
 	sum := ev.Summary{
-		Rule: "random sequences (length 1-12) of To/AddTo/AddToFormat/ToIgnoreInvalid/ToFromString and the Cc/Bcc equivalents, From/FromFormat/EnvelopeFrom/ReplyTo/ReplyToFormat over valid-by-construction addresses (display names needing quoting or RFC 2047) and invalid strings; a reference model of the documented list semantics predicts the lists; then getters, rendered header fields, absence of every (unique, high-entropy) Bcc address in raw bytes / decoded headers / decoded bodies / committed payload, and the MAIL/RCPT sequence at the reference server are compared. non-trivial = at least 2 calls; distinct by (list sizes, op names)",
+		Rule: "random sequences (length 1-12) of To/AddTo/AddToFormat/ToIgnoreInvalid/ToFromString and the Cc/Bcc equivalents, From/FromFormat/EnvelopeFrom/ReplyTo/ReplyToFormat over valid-by-construction addresses (display names needing quoting or RFC 2047) and invalid strings, a third of the list setters being handed the very slice an earlier list setter of the message was given (one list variable of the caller's used for several lists); a reference model of the documented list semantics predicts the lists; then getters, rendered header fields, absence of every (unique, high-entropy) Bcc address in raw bytes / decoded headers / decoded bodies / committed payload, and the MAIL/RCPT sequence at the reference server are compared. non-trivial = at least 2 calls; distinct by (list sizes, op names)",
 		Assumptions: []string{
 			"documented semantics: set replaces (unchanged on error), add appends, IgnoreInvalid replaces with the valid subset, FromString splits on commas and skips blanks, From/ReplyTo/EnvelopeFrom keep one address",
 			"display names compare modulo blank-run collapsing",
